@@ -1314,6 +1314,76 @@ fn replay_scenario(events: &[serde_json::Value], sc: usize, out: Box<dyn std::io
     (out, lines, panics)
 }
 
+
+/// Specification -> implementation for the check point machinery (C07): the events of one behaviour of
+/// MC_CheckPointsR on a real chain (interval 2, three peers, capacity 3: quorum 2, peer 3 reports invented values).
+fn cpreplay_scenario(events: &[serde_json::Value], sc: usize, out: Box<dyn std::io::Write>, skipped: &mut u64) -> (Box<dyn std::io::Write>, u64, Vec<String>) {
+    let mut rng = StdRng::seed_from_u64(99);
+    let interval = 2u64;
+    let built = build_tx_world(&mut rng, "dummy", 10, 0, 1, 1);
+    let cfg = Config { last_n: 3, max_outbound: 3, interval, blocks_in_transit: 2, ..Default::default() };
+    let leaf = built.leaves[0];
+    let mut sim: Sim = new_sim(built.chain, cfg, 3, out, &format!("cpreplay-{}", sc), vec!["peersync", "filter"]);
+    let mut env = Env::new(&sim, &[(leaf, leaf), (leaf, leaf), (leaf, leaf)]);
+    sim.reset(json!({"mode": "cp", "liars": ["p3"], "required": 2}));
+    env.set_scripts(&mut sim, "all", &[(0, false, 0)]);
+    let chain_ids = sim.chain.chain_of(leaf);
+    let tip_num = sim.chain.blocks[leaf].num;
+    for e in events {
+        if !sim.panics.is_empty() {
+            break;
+        }
+        let i = match e["p"].as_str().unwrap_or("") { "p1" => 0usize, "p2" => 1, "p3" => 2, _ => 0 };
+        match e["k"].as_str().unwrap_or("") {
+            "Connect" => {
+                if !env.peers[i].connected { env.connect(&mut sim, i) } else { *skipped += 1 }
+            }
+            "Disconnect" => {
+                if env.peers[i].connected { env.disconnect(&mut sim, i) } else { *skipped += 1 }
+            }
+            "Prove" => {
+                let proven = sim.client().peers.get_state(&env.peers[i].idx).map(|st| st.get_prove_state().is_some()).unwrap_or(false);
+                if env.peers[i].connected && !proven {
+                    env.send_last_state(&mut sim, i);
+                    while env.peers[i].connected && env.answer_proof(&mut sim, i) {}
+                } else {
+                    *skipped += 1
+                }
+            }
+            "Report" => {
+                if !env.peers[i].connected {
+                    *skipped += 1;
+                    continue;
+                }
+                let start = e["s"].as_u64().unwrap_or(0);
+                let mut vals = Vec::new();
+                let mut lie = false;
+                for (k, v) in e["v"].as_array().cloned().unwrap_or_default().iter().enumerate() {
+                    let n = start + k as u64 * interval;
+                    if v.as_u64() == Some(1) {
+                        if n > tip_num {
+                            break;
+                        }
+                        vals.push(sim.chain.blocks[chain_ids[n as usize]].filter_hash.clone());
+                    } else {
+                        lie = true;
+                        vals.push(crate::verif::env::fake_cp(1, n / interval));
+                    }
+                }
+                env.send_check_points(&mut sim, i, start, vals, if lie { "lie" } else { "honest" });
+            }
+            "Refresh" => env.refresh(&mut sim),
+            "Restart" => env.restart(&mut sim),
+            _ => *skipped += 1,
+        }
+        env.enforce_bans(&mut sim);
+    }
+    let lines = sim.lines;
+    let panics = sim.panics.clone();
+    let out = std::mem::replace(&mut sim.out, Box::new(std::io::sink()));
+    (out, lines, panics)
+}
+
 fn run_replay(kv: &HashMap<String, String>) -> i32 {
     let path = arg_str(kv, "out", "/dev/stdout");
     let file = arg_str(kv, "file", "");
@@ -1334,7 +1404,11 @@ fn run_replay(kv: &HashMap<String, String>) -> i32 {
             Ok(v) => v,
             Err(_) => continue,
         };
-        let (o, l, p) = replay_scenario(&events, idx, out, &mut skipped);
+        let (o, l, p) = if arg_str(kv, "mode", "replay") == "cpreplay" {
+            cpreplay_scenario(&events, idx, out, &mut skipped)
+        } else {
+            replay_scenario(&events, idx, out, &mut skipped)
+        };
         out = o;
         total += l;
         done += 1;
@@ -1347,7 +1421,7 @@ fn run_replay(kv: &HashMap<String, String>) -> i32 {
 }
 
 pub fn run(kv: &HashMap<String, String>) -> i32 {
-    if arg_str(kv, "mode", "sync") == "replay" {
+    if arg_str(kv, "mode", "sync") == "replay" || arg_str(kv, "mode", "sync") == "cpreplay" {
         return run_replay(kv);
     }
     if arg_str(kv, "mode", "sync") == "crash" {
